@@ -24,13 +24,13 @@ func init() {
 		Quick: []Scenario{
 			mk("simple-nottl", 8, "6", "", 60), mk("simple-ttl", 8, "6", "", 60), mk("simple-m2", 8, "6", "", 60),
 			mk("loading-nottl", 8, "6", "", 60), mk("loading-ttl", 8, "6", "", 60), mk("loading-m2", 8, "6", "", 60),
-			mk("fault-simple", 16, "5", "4", 60), mk("fault-loading", 16, "5", "4", 60), mk("loading-expiry", 8, "5", "", 60), mk("simple-pool", 8, "6", "", 60), mk("loading-pool", 8, "6", "", 60),
+			mk("fault-simple", 16, "5", "4", 60), mk("fault-loading", 16, "5", "4", 60), mk("loading-expiry", 8, "5", "", 60), mk("simple-pool", 8, "6", "", 60), mk("loading-pool", 8, "6", "", 60), mk("queue-full", 8, "5", "", 60),
 			ic("J1-get-during-demotion", 4, "2", 60), ic("J1t-get-during-demotion-ttl", 4, "2", 60), ic("J2-loading-get-during-demotion", 4, "2", 60), ic("J3-two-workers-two-readers", 8, "1", 60),
 		},
 		Thorough: []Scenario{
 			mk("simple-nottl", 16, "8", "", 100), mk("simple-ttl", 16, "8", "", 100), mk("simple-m2", 16, "8", "", 100),
 			mk("loading-nottl", 16, "8", "", 100), mk("loading-ttl", 16, "8", "", 100), mk("loading-m2", 16, "8", "", 100),
-			mk("fault-simple", 16, "6", "5", 100), mk("fault-loading", 16, "6", "5", 100), mk("loading-expiry", 16, "7", "", 100), mk("simple-pool", 16, "8", "", 100), mk("loading-pool", 16, "8", "", 100),
+			mk("fault-simple", 16, "6", "5", 100), mk("fault-loading", 16, "6", "5", 100), mk("loading-expiry", 16, "7", "", 100), mk("simple-pool", 16, "8", "", 100), mk("loading-pool", 16, "8", "", 100), mk("queue-full", 16, "7", "", 100),
 			ic("J1-get-during-demotion", 8, "3", 600), ic("J1t-get-during-demotion-ttl", 8, "3", 600), ic("J2-loading-get-during-demotion", 8, "3", 600), ic("J3-two-workers-two-readers", 16, "3", 600),
 		},
 	})
